@@ -626,8 +626,9 @@ class Executor:
             if inner.startswith("["):
                 return self.fresh_value("Vec<%s>" % inner[1:-1], name)
             return Ref(Cell(self.fresh_value(inner, name), name))
-        if b in ("RefCell", "Located") and False:
-            pass
+        if b == "RefCell":
+            ga = generic_args(ty)
+            return self.fresh_value(ga[0] if ga else "?", name)         # RefCell<T> is modelled by its content
         if b in ("HashMap", "HashSet"):
             m = MapObj(name, is_set=(b == "HashSet"))
             ga = generic_args(ty)
@@ -736,6 +737,16 @@ class Executor:
             if isinstance(e, Lazy):
                 fl = e.pv.setdefault(var, {})
                 if idx not in fl:
+                    if ty in ("?", "", None):
+                        # payload type from the owner's own type when the projection carries none
+                        ga = generic_args(e.ty)
+                        b = base_ty(e.ty)
+                        if b == "Option" and ga:
+                            ty = ga[0]
+                        elif b == "Result" and len(ga) == 2:
+                            ty = ga[0] if var == "Ok" else ga[1]
+                        elif (b, var) in ENUM_FIELD_TYPES and idx < len(ENUM_FIELD_TYPES[(b, var)]):
+                            ty = ENUM_FIELD_TYPES[(b, var)][idx]
                     fl[idx] = self.fresh_value(ty, "%s.%s.%d" % (e.name, var, idx))
                 return fl[idx]
             raise Unsupported("downcast of " + repr(e))
@@ -1003,6 +1014,12 @@ class Executor:
             return Adt(base_ty(head), None, [self.operand(fr, a) for a in argstr])
         if argstr is None and base_ty(head) in STRUCTS and not STRUCTS[base_ty(head)]:
             return Adt(base_ty(head), None, [])
+        if re.match(r"^\w+$", rv):
+            owners = [e for e, vs in ENUMS.items() if rv in vs]
+            if len(owners) == 1:
+                return Adt(owners[0], rv, [])
+            if "Ordering" in owners:
+                return Adt("Ordering", rv, [])
         raise Unsupported("rvalue " + rv)
 
     def discriminant(self, v):
@@ -1238,6 +1255,68 @@ class Executor:
             raise Unsupported("ambiguous function %s: %s" % (c, [f.name for f in cands]))
         return None
 
+    def impl_generics(self, f):
+        """(type parameter names, self type pattern) of the impl block (or derive) the function belongs to"""
+        key = ("impl", f.name)
+        if key in self.generics_cache:
+            return self.generics_cache[key]
+        res = ([], None)
+        m = re.search(r"<impl at ((?:src|tests)/[\w/.-]+\.rs):(\d+):(\d+): (\d+):(\d+)>", f.name)
+        if m:
+            path, l, c = m.group(1), int(m.group(2)), int(m.group(3))
+            lines = open(os.path.join(self.srcdir, path)).read().split("\n")
+            text = lines[l - 1][c - 1:]
+            hdr = None
+            if text.startswith("impl"):
+                hdr = " ".join(lines[l - 1:l + 4])
+                hdr = hdr[hdr.index("impl") + 4:].lstrip()
+                names = []
+                if hdr.startswith("<"):
+                    d = 0
+                    for j, ch in enumerate(hdr):
+                        if ch == "<":
+                            d += 1
+                        elif ch == ">" and hdr[j - 1] != "-":
+                            d -= 1
+                            if d == 0:
+                                break
+                    for part in split_top(hdr[1:j]):
+                        nm = part.split(":")[0].strip()
+                        if nm and not nm.startswith("'") and not nm.startswith("const "):
+                            names.append(nm)
+                    hdr = hdr[j + 1:]
+                h = re.split(r"\bwhere\b|\{", hdr, 1)[0].strip()
+                selfty = h.split(" for ", 1)[1].strip() if " for " in h else h
+                res = (names, selfty)
+            else:
+                # derive: the span points into #[derive(..)]; the item declaration follows
+                for k in range(l - 1, min(l + 12, len(lines))):
+                    mm = re.search(r"\b(enum|struct)\s+(\w+)\s*(<[^{(;]*>)?", lines[k])
+                    if mm:
+                        names = []
+                        if mm.group(3):
+                            for part in split_top(mm.group(3)[1:-1]):
+                                nm = part.split(":")[0].strip()
+                                if nm and not nm.startswith("'"):
+                                    names.append(nm)
+                        res = (names, mm.group(2) + ("<" + ", ".join(names) + ">" if names else ""))
+                        break
+        self.generics_cache[key] = res
+        return res
+
+    def unify_types(self, pattern, actual, names, out):
+        pattern, actual = pattern.strip(), actual.strip()
+        pattern = re.sub(r"^&('\w+ )?(mut )?", "", pattern)
+        actual = re.sub(r"^&('\w+ )?(mut )?", "", actual)
+        if pattern in names:
+            out.setdefault(pattern, actual)
+            return
+        pa = [x for x in generic_args(pattern) if not x.strip().startswith("'")]
+        aa = [x for x in generic_args(actual) if not x.strip().startswith("'")]
+        if pa and len(pa) == len(aa) and base_ty(pattern) == base_ty(actual):
+            for x, y in zip(pa, aa):
+                self.unify_types(x, y, names, out)
+
     def fn_generics(self, f):
         """names of the function's own type parameters (read from the source), for binding call-site turbofish arguments"""
         if f.name in self.generics_cache:
@@ -1337,6 +1416,24 @@ class Executor:
                 return itertools.chain([first], g)
         f = self.resolve(callee)
         if f is not None and f.blocks:
+            inames, ipat = self.impl_generics(f)
+            if inames and ipat:
+                actual = None
+                mq = re.match(r"^<(.+) as .+>::\w+", callee, re.S)
+                if mq:
+                    from .models import self_type
+                    actual = self_type(callee)
+                else:
+                    mi = re.match(r"^(.*)::(\w+)(::<.*>)?$", callee.strip(), re.S)
+                    if mi:
+                        actual = re.sub(r"::<", "<", mi.group(1))
+                if actual:
+                    # substitute the caller's own bindings first (nested generic calls)
+                    binds = {}
+                    self.unify_types(ipat, actual, inames, binds)
+                    binds = {k: v for k, v in binds.items() if v not in inames and v != k}
+                    if binds:
+                        self.pending_generics = dict(binds)
             gnames = self.fn_generics(f)
             if gnames:
                 mt = re.search(r"::<([^<>]*(?:<[^<>]*>[^<>]*)*)>$", callee.strip())
@@ -1344,7 +1441,9 @@ class Executor:
                     targs = split_top(mt.group(1))
                     targs = [a for a in targs if not a.strip().startswith("'")]
                     if len(targs) == len(gnames):
-                        self.pending_generics = dict(zip(gnames, [a.strip() for a in targs]))
+                        pg = dict(getattr(self, "pending_generics", None) or {})
+                        pg.update(dict(zip(gnames, [a.strip() for a in targs])))
+                        self.pending_generics = pg
             m = re.match(r"^<((?:&(?:mut )?)+)", callee)
             if m:
                 # std's forwarding impls for references (`impl PartialEq<&B> for &A` ...): peel the extra reference levels
